@@ -26,7 +26,7 @@ PROP = dict(
     level_note=("Trusted: Coq kernel+VM, testing/synctest's virtual clock, the AWS SDK request path; a read of the live file returning one complete version rests on C04 "
                 "(atomic replacement) and is tested here by hashing; CPU spinning is detected by a real-time watchdog (virtual time cannot advance), the number of "
                 "WriteGen calls itself is not observable without a further hook; no two timeline events fall on the same virtual instant (generator)."),
-    trusted_extra=["loopback TCP inside the harness process and the AWS SDK's environment configuration (AWS_ENDPOINT_URL) for the scenarios through server.New; real-time instants snapped to the minute grid (lag <= 2.5 s) by the harness"],
+    trusted_extra=["loopback TCP inside the harness process and the AWS SDK's environment configuration (AWS_ENDPOINT_URL) for the scenarios through server.New; real-time instants snapped to the minute grid (lag <= 3.5 s) by the harness"],
     rule=("260 generated timelines (thorough 6000) of kinds bursts / idle-hours / failures / racing / slow-uploads / cancel-early / mixed / failed-writes (every kind mixes in ~12 % failing write attempts and ~12 % reads; "
           "failed-writes: 45 % / 30 %); one case = one run of the task "
           "from start to cancellation (a quarter of them restarts: the file exists when db.Open runs, 40 % of those with no call in this lifetime); plus 9 real-time scenarios in which the task is started by the real server.New with a bucket configured; non-trivial if it has >= 3 uploads and >= 2 mutating calls, or >= 2 failing calls; distinct by timeline"),
